@@ -9,6 +9,7 @@ mod c_bus;
 mod c_flow;
 mod c_isa;
 mod c_mach;
+mod c_run;
 mod gen;
 mod out;
 mod rng;
@@ -45,6 +46,7 @@ fn main() {
         "c07" => c_mach::run_c07(&mut out, seed, thorough),
         "c11" => c_mach::run_c11(&mut out, seed, thorough),
         "c13" => c_mach::run_c13(&mut out, seed, thorough),
+        "c12" => c_run::run_c12(&mut out, seed, thorough),
         "replay" => gen::replay(&mut out, &extra),
         _ => {
             eprintln!("unknown command {}", cmd);
